@@ -29,10 +29,13 @@ SiteOk(r) ==
        /\ exp[i].what \in {"record", "enter", "exit", "close"} => r.proj[i].name_ok
 
 SomeEq(a, b) == a.some = b.some /\ (a.some => a.v = b.v)
+\* via = "format_trace": tracing_log::format_trace, the entry point without LogTracer (no ignore list, no max-level gate):
+\* the record becomes an event iff the collector's enabled() accepts its level and target
 RecordOk(r) ==
-  LET del == Delivered(cur, ign, r.rec.level, r.rec.target) IN
+  LET ft == r.rec.via = "format_trace"
+      del == IF ft THEN CEnabled(cur, r.rec.level, r.rec.target) ELSE Delivered(cur, ign, r.rec.level, r.rec.target) IN
   /\ ~("panic" \in DOMAIN r)
-  /\ r.enabled = del
+  /\ ~ft => r.enabled = del
   /\ Len(r.events) = (IF del THEN 1 ELSE 0)
   /\ del => LET e == r.events[1] IN
             /\ e.is_log
@@ -55,7 +58,9 @@ TraceNext ==
               /\ (CASE r.op = "site"       -> Emit /\ Flag(SiteOk(r) /\ r.has_been_set = ever)
                     [] r.op = "scoped_on"  -> ScopedOn /\ Flag(r.has_been_set /\ Len(r.records) = 0)
                     [] r.op = "scoped_off" -> ScopedOff /\ Flag(r.has_been_set /\ Len(r.records) = 0)
-                    [] r.op = "global"     -> Global /\ Flag(r.has_been_set /\ Len(r.records) = 0))
+                    [] r.op = "global"     -> Global /\ Flag(r.has_been_set /\ Len(r.records) = 0)
+                   \* constructing a collector is not installing one
+                   [] r.op = "construct"  -> Emit /\ Flag(r.has_been_set = ever /\ Len(r.records) = 0))
          [] r.ev = "round" -> /\ cur' = (IF r.installed THEN [cap |-> r.collector.cap, prefix |-> r.collector.prefix, hint |-> r.collector.hint, inen |-> r.collector.inen] ELSE NoCollector)
                               /\ ign' = {r.ignore[i] : i \in DOMAIN r.ignore}
                               /\ UNCHANGED <<lvars, bad, always>>
